@@ -177,3 +177,15 @@ PROPS["C11"] = {
     "thorough": {"cases": 8000000, "floor_evaluations": 4000000},
     "regress": ["msgpack_wildcard_over_array"],
 }
+
+PROPS["C15"] = {
+    "title": "The nesting limit bounds recursion for every input",
+    "src": "c15.cpp",
+    "level": "exploration",
+    "technique": "property-based testing with a depth-tracking skeleton generator (JSON and MessagePack, all header families), limits around the actual depth, filters that keep/discard/mismatch the deep branch; stack consumption measured inside a custom reader and compared with canonical depth-L chains; adversarial inputs of up to 10^5 opening brackets",
+    "rule": "case = bracket skeleton with a spine of depth 0..300 and side branches (deep branch first/middle/last, keys a/b/deep), rendered as JSON and as MessagePack (fix/16/32 headers), nesting limit uniform in 0..255 or within 1 of the depth or small, one of 16 filters (none, true, false, null, {}, [], member/wildcard/array filters, scalars), optional garbage tail; sweep: chains of 2L+2 / 10^3 / 10^5 opening brackets or headers in 5 forms x 8 limits x 4 filters; non-trivial = |depth - L| <= 1 or a filter is present and depth > L; distinct = hash of (skeleton, L, format, filter)",
+    "level_text": "Exploration: TooDeep iff a container is opened at depth L+1 (also inside discarded parts), Ok implies nesting() <= L, reads stop at the offending bracket/header, and the stack used never exceeds that of the canonical depth-L array/object chains measured in the same process by more than 512 bytes, whatever the length and content of the input.",
+    "level_note": "Termination/recursion is observed through the stack pointer inside the reader callback (lowest address seen), which bounds the recursion depth at every read; frames that never read are not observed.",
+    "quick": {"cases": 200000, "sweep": True, "floor_evaluations": 150000, "floor_nontrivial": 30000},
+    "thorough": {"cases": 8000000, "sweep": True, "floor_evaluations": 4000000},
+}
